@@ -19,6 +19,9 @@ LAYOUTS = {
     "types": ["i1", "s1", "i1", None, "s1", "i1"],
     # two child lists (x, y) next to the root list's own shards
     "nest2": ["A", None, "|", "B", "A", "A", "|", None, "B", "B"],
+    # a later session into x / into y dies before it is merged
+    "stale-x": ["A", None, "|", "B", "A", "|", None, "B", "!x", "A", "B"],
+    "stale-y": ["A", None, "|", "B", "A", "|", None, "B", "!y", "B", "A"],
 }
 ACCEPTS = {
     "sync": {"shards", "limit", "filter"},
@@ -46,34 +49,47 @@ def label(g):
 def build(root, fmt: str, layout: list):
     """Shard i holds 2 examples (the last one of a session 1) and carries the
     metadata group layout[i]; "|" starts a second session in sub-directory
-    x (nested shard list)."""
+    x (nested shard list); "!x" starts a session into the already used
+    sub-directory x that is never completed (the writer dies: the child list
+    on disk is ahead of what its parent records)."""
     from pathlib import Path
     from sedpack.io.dataset_filler import DatasetFiller
     ds_ = D.create(root, fmt=fmt, eps=2)
     q = 0
     shards = []
-    sessions = [[]]
+    sessions = [[None, False, []]]
     for g in layout:
         if g == "|":
-            sessions.append([])
+            sessions.append(["xyzw"[min(len(sessions) - 1, 3)], False, []])
+        elif isinstance(g, str) and g.startswith("!"):
+            sessions.append([g[1:], True, []])
         else:
-            sessions[-1].append(g)
-    for si, groups in enumerate(sessions):
-        filler = ds_.filler() if si == 0 else DatasetFiller(
-            ds_, relative_path_from_split=Path("xyzw"[min(si - 1, 3)]))
-        with filler as f:
-            for i, g in enumerate(groups):
-                n = 1 if (i == len(groups) - 1 and "nest2" not in str(
-                    layout[:0]) and len(sessions) < 3) else 2
-                members = []
-                for _ in range(n):
-                    f.write_example(values=D.example((0, 0, q)),
-                                    split="train", custom_metadata=label(g))
-                    members.append((0, 0, q))
-                    q += 1
-                shards.append(("AB" if g == "BA" else g, members))
-            if si == 0:
-                f.write_example(values=D.example((0, 9, 0)), split="test")
+            sessions[-1][2].append(g)
+    many = len(sessions) >= 3
+    for si, (sub, interrupted, groups) in enumerate(sessions):
+        filler = ds_.filler() if sub is None else DatasetFiller(
+            ds_, relative_path_from_split=Path(sub))
+        f = filler.__enter__()
+        for i, g in enumerate(groups):
+            n = 1 if (i == len(groups) - 1 and not many) else 2
+            members = []
+            for _ in range(n):
+                f.write_example(values=D.example((0, 0, q)),
+                                split="train", custom_metadata=label(g))
+                members.append((0, 0, q))
+                q += 1
+            shards.append(("AB" if g == "BA" else g, members))
+        if si == 0:
+            f.write_example(values=D.example((0, 9, 0)), split="test")
+        if interrupted:
+            # one more example closes the last full shard (progress is saved
+            # per closed shard); it sits in a shard that never reaches the
+            # disk, and the session is never merged
+            f.write_example(values=D.example((0, 8, q)), split="train",
+                            custom_metadata=label(groups[-1]))
+            del f, filler
+        else:
+            filler.__exit__(None, None, None)
     return ds_, shards
 
 
@@ -222,10 +238,12 @@ def run(ctx):
     rustbuild.ensure_ext()
     tasks = [("fb", "g6"), ("fb", "g5"), ("npz", "g6"), ("tfrec", "g5"),
              ("fb", "one"), ("fb", "nest"), ("npz", "nest"), ("fb", "types"),
-             ("fb", "nest2"), ("tfrec", "nest2")]
+             ("fb", "nest2"), ("tfrec", "nest2"), ("fb", "stale-x"),
+             ("fb", "stale-y"), ("npz", "stale-y")]
     if ctx.tier == "thorough":
         tasks += [("npz", "g5"), ("tfrec", "g6"), ("npz", "one"),
-                  ("tfrec", "one")]
+                  ("tfrec", "one"), ("npz", "stale-x"), ("tfrec", "stale-x"),
+                  ("tfrec", "stale-y")]
     with core.pool() as ex:
         tot = 0
         for r in ex.map(case, tasks):
